@@ -182,6 +182,70 @@ class Ctx:
             self.transitions += r.generated
         return r
 
+    # -------------------------------------------------------------- Apalache
+    def apalache(self, subdir, module, jobs, parallel=8, timeout=900):
+        """Run `apalache-mc check --length=0` once per job on spec/<subdir>/<module>.tla (symbolic check of the
+        invariant on every initial state).  jobs: list of dicts {inv, cinit, label}.  Returns one dict per job:
+        {outcome: "NoError" | "Error", state: <first state of the counterexample as python ints/bools>, wall}.
+        Anything else (timeout, JVM/parse/type error) is an infrastructure failure."""
+        from concurrent.futures import ThreadPoolExecutor
+        wd = os.path.join(self.work, "apalache-%s-%d" % (module, len(self.tlc_runs)))
+        os.makedirs(wd, exist_ok=True)
+        for d in ("common", subdir):
+            src = os.path.join(SPEC, d)
+            if os.path.isdir(src):
+                for f in os.listdir(src):
+                    if f.endswith(".tla"):
+                        shutil.copy(os.path.join(src, f), wd)
+        e = dict(os.environ)
+        e.pop("JAVA_TOOL_OPTIONS", None)
+
+        def unitf(v):
+            if isinstance(v, dict) and "#bigint" in v:
+                return int(v["#bigint"])
+            return v
+
+        def one(job):
+            out = os.path.join(wd, "out-" + re.sub(r"\W", "_", job["label"]))
+            cmd = ["apalache-mc", "check", "--out-dir=" + out, "--length=0", "--inv=" + job["inv"]]
+            if job.get("cinit"):
+                cmd.append("--cinit=" + job["cinit"])
+            cmd.append(module + ".tla")
+            t = time.time()
+            try:
+                p = subprocess.run(cmd, cwd=wd, env=e, stdout=subprocess.PIPE, stderr=subprocess.STDOUT,
+                                   timeout=timeout, text=True, errors="replace")
+            except subprocess.TimeoutExpired:
+                subprocess.run(["pkill", "-f", out], check=False)
+                return {"job": job, "outcome": "Timeout", "wall": time.time() - t, "out": ""}
+            res = {"job": job, "wall": time.time() - t, "out": p.stdout, "state": None}
+            m = re.search(r"The outcome is: (\w+)", p.stdout)
+            res["outcome"] = m.group(1) if m else "Failed(rc=%d)" % p.returncode
+            if res["outcome"] == "Error":
+                for root, _, files in os.walk(out):
+                    if "violation1.itf.json" in files:
+                        with open(os.path.join(root, "violation1.itf.json")) as f:
+                            itf = json.load(f)
+                        st = itf["states"][0]
+                        res["state"] = {k: unitf(v) for k, v in st.items() if not k.startswith("#")}
+                if res["state"] is None:
+                    res["outcome"] = "Failed(no counterexample file)"
+            return res
+
+        with ThreadPoolExecutor(max_workers=parallel) as ex:
+            results = list(ex.map(one, jobs))
+        for r in results:
+            self.tlc_runs.append({"module": module, "cfg": "apalache --length=0 --inv=%s --cinit=%s" % (
+                r["job"]["inv"], r["job"].get("cinit")), "mode": "apalache-symbolic", "generated": 0, "distinct": 0,
+                "depth": 0, "wall_s": round(r["wall"], 1), "rc": 0 if r["outcome"] == "NoError" else 12,
+                "violated": r["job"]["inv"] if r["outcome"] == "Error" else None})
+            self.log("Apalache %s/%s inv=%s cinit=%s: %s %.1fs" % (subdir, module, r["job"]["inv"],
+                                                                   r["job"].get("cinit"), r["outcome"], r["wall"]))
+            if r["outcome"] not in ("NoError", "Error"):
+                raise Infra("Apalache %s on %s inv=%s cinit=%s\n%s" % (
+                    r["outcome"], module, r["job"]["inv"], r["job"].get("cinit"), "\n".join(r["out"].splitlines()[-30:])))
+        return results
+
     def write_ndjson(self, name, items):
         path = os.path.join(self.work, name)
         with open(path, "w") as f:
